@@ -337,7 +337,11 @@ func (g *gwGen) tcpRoute(ns, name string) *gatewayv1alpha2.TCPRoute {
 	return mkTCPRoute(ns, name, g.next(), g.parents(ns), []gwRule{{Backends: g.backends(ns)}})
 }
 
-func genGateway(seed uint64, tier string) *RunConfig {
+func genGateway(seed uint64, tier string) *RunConfig { return genGatewayWorld(seed, tier, false) }
+
+// genGatewayWorld: with xns the Services carry basic authentication secrets of another namespace and the
+// global ConfigMap opens or closes that class (the Gateway converter reads Service annotations too).
+func genGatewayWorld(seed uint64, tier string, xns bool) *RunConfig {
 	r := rand.New(rand.NewPCG(seed, 0xc10))
 	g := &gwGen{r: r}
 	ctl := sampleCtl(r)
@@ -346,7 +350,13 @@ func genGateway(seed uint64, tier string) *RunConfig {
 	add := func(o client.Object) {
 		rc.World.Objects = append(rc.World.Objects, wobj(o))
 	}
-	add(mkConfigMap(globalConfigMapName, map[string]string{"ssl-redirect": "false"}))
+	global := map[string]string{"ssl-redirect": "false"}
+	if xns {
+		global["cross-namespace-secrets-passwd"] = g.of("allow", "allow", "deny")
+		add(mkOpaqueSecret("a", "auth", map[string][]byte{"auth": []byte("usra::cleara\n")}))
+		add(mkOpaqueSecret("b", "auth", map[string][]byte{"auth": []byte("usrb::clearb\n")}))
+	}
+	add(mkConfigMap(globalConfigMapName, global))
 	add(mkNamespace("a", map[string]string{"team": "red", "env": "prod"}))
 	add(mkNamespace("b", map[string]string{"team": "blue"}))
 	if g.chance(3, 4) {
@@ -361,7 +371,11 @@ func genGateway(seed uint64, tier string) *RunConfig {
 			if g.chance(1, 8) {
 				continue
 			}
-			add(mkService(ns, s, nil, map[string]string{"app": s}, []portSpec{{"http", 80, "8080"}}))
+			var svcAnn map[string]string
+			if xns && g.chance(1, 2) {
+				svcAnn = map[string]string{annPrefix + "auth-secret": g.of("a/auth", "b/auth", "auth")}
+			}
+			add(mkService(ns, s, svcAnn, map[string]string{"app": s}, []portSpec{{"http", 80, "8080"}}))
 			var addrs []epAddr
 			for k, n := 0, g.pick(4); k < n; k++ {
 				ip := fmt.Sprintf("10.2.%d.%d", idx, k+1)
@@ -416,6 +430,12 @@ func genGateway(seed uint64, tier string) *RunConfig {
 	mn, mx := tierOps(tier, 4, 16)
 	nops := mn + g.pick(mx-mn+1)
 	for i := 0; i < nops; i++ {
+		if xns && g.chance(1, 5) {
+			// the permission is granted or revoked while the controller runs
+			global["cross-namespace-secrets-passwd"] = g.of("allow", "deny", "deny")
+			rc.Ops = append(rc.Ops, applyOp(mkConfigMap(globalConfigMapName, global), "global config"))
+			continue
+		}
 		if withIngress && g.chance(1, 4) {
 			if g.chance(1, 5) {
 				rc.Ops = append(rc.Ops, deleteOp(KIngress, g.of("a", "b")+"/companion", "companion ingress delete"))
@@ -873,6 +893,22 @@ func init() {
 	register(&Profile{Name: "gateway", Prop: "C10", Weight: 1,
 		Oracles: OracleSet{Property: "C10", Gateway: true},
 		Build:   genGateway})
+	// the Gateway API worlds against a fresh controller, with references into other namespaces on the Services
+	register(&Profile{Name: "churn-gateway", Prop: "C01", Weight: 1,
+		Oracles: OracleSet{Property: "C01", FreshAtSync: true, EffectiveAtSync: true},
+		Build: func(seed uint64, tier string) *RunConfig {
+			rc := genGatewayWorld(seed, tier, true)
+			rc.Property, rc.Profile = "C01", "churn-gateway"
+			return rc
+		}})
+	// cross-namespace isolation of what the Gateway converter reads through Service annotations
+	register(&Profile{Name: "xns-gateway", Prop: "C09", Weight: 1,
+		Oracles: OracleSet{Property: "C09", CrossNS: true},
+		Build: func(seed uint64, tier string) *RunConfig {
+			rc := genGatewayWorld(seed, tier, true)
+			rc.Property, rc.Profile = "C09", "xns-gateway"
+			return rc
+		}})
 	// the Gateway API worlds under the loadability oracle (two backendRefs of one rule may select the same pods)
 	register(&Profile{Name: "stress-gateway", Prop: "C07", Weight: 1,
 		Oracles: OracleSet{Property: "C07", Loadable: true},
